@@ -69,6 +69,24 @@ def walRun (a : Args) : String :=
     s!"res={res} sizes={String.intercalate "/" sizesRev.reverse} pre={dirToStr pre} close={errStr cl.2} post={dirToStr post} recs={recsPrint recs} rpre={replayStr (replay cOf pre)} rpost={replayStr (replay cOf post)}"
   | _, _, _, _, _, _ => "bad-op"
 
+def evStr : FsEvent → String
+  | .create f => "c:" ++ nameToStr (walName f)
+  | .write f bs => "w:" ++ nameToStr (walName f) ++ ":" ++ toString bs.length
+  | .fsync f => "f:" ++ nameToStr (walName f)
+  | .close f => "x:" ++ nameToStr (walName f)
+
+/-- `wal.events max=N buf=N comp=N oracle=.. ops=..`: the file-system events of `NewAppender`, of every operation
+and of the final `Close`, groups separated by `/` (`c:` create, `w:name:len` one write call, `f:` fsync,
+`x:` close); for comparison with system-call traces -/
+def walEventsCmd (a : Args) : String :=
+  match compOf a, a.nat? "comp", a.nat? "max", a.nat? "buf", parseWalOps (a.getD "ops" "") with
+  | some c, some ct, some mx, some bs, some prog =>
+    let o : WalOpts := { maxSize := mx, bufSize := bs, ct := ct }
+    let (w, ev0, ts) := Wal.run o c prog
+    let grp (es : List FsEvent) : String := String.intercalate "," (es.map evStr)
+    String.intercalate "/" (grp ev0 :: ts.map (fun t => grp t.evs) ++ [grp w.close.1])
+  | _, _, _, _, _ => "bad-op"
+
 /-- `wal.cuts oracle=.. dir=<name>:<hex>;.. file=<k> cuts=<len>,..,absent`: the replayer on the directory with
 file `k` (in the given order) cut to each length / removed -/
 def walCuts (a : Args) : String :=
